@@ -303,6 +303,8 @@ def check(case):
         res.label("stop")
     if any(e == "AssertionError" for _k, e in faults):
         res.label("AssertionError")
+    if any(e.endswith("0") for _k, e in faults):
+        res.label("exception-without-message")
     ninst = sum(1 for f in prog["features"] for _ in scenario_instances(f))
     res.nontrivial = ninst >= 2 and any(nme not in ("before_all", "after_all") for nme in names)
     return res
@@ -344,7 +346,8 @@ def explore(rec):
         rec.record({"program": prog, "faults": []}, sub="fault-free")
         base_ref = baseline_for(prog)[0]
         n = len(base_ref.hooks)
-        excs = ["Exception"] if counter["n"] % 2 else ["Exception", "AssertionError"]
+        # every fourth program: exceptions WITHOUT a message (bare `assert cond`, `raise AssertionError()`)
+        excs = (["Exception"], ["Exception", "AssertionError"], ["AssertionError0"], ["Exception", "Exception0"])[counter["n"] % 4]
         for k in range(n):
             for e in excs:
                 rec.record({"program": prog, "faults": [[k, e]]}, sub="every-hook-call")
@@ -374,7 +377,7 @@ def required_labels(tier):
                                     "before_tag", "after_tag"]] + ["faults:2", "stop", "AssertionError", "fault-free",
                                                                      "dry-run", "skip-in-hook:feature",
                                                                      "skip-in-hook:rule", "skip-in-hook:scenario",
-                                                                     "fault-in-@capture-decorated-hook"]
+                                                                     "fault-in-@capture-decorated-hook", "exception-without-message"]
 
 
 KNOWN_PREDICATES = {}
